@@ -703,7 +703,5 @@ def emptyLitCase : Case :=
 
 example : Spec.C05 emptyLitCase (Chan.run emptyLitCase) = false := by decide
 
-/-- kept only because `harness/c05.py` still lists it in `THEOREMS`; to be dropped once the
-    harness audits the real theorems (`C05.case_spec` …) -/
 
 end C05
